@@ -33,6 +33,15 @@ func init() {
 		}
 		thorough = append(thorough, t)
 	}
+	// two-site damage: a byte outside the payloads (header field / type descriptor) + a bit inside a payload
+	hp := sc("window3", "same", 8, 60)
+	hp.Name, hp.Params = "C12/window3/header+payload", hp.Params+",hp=bit0"
+	quick = append(quick, hp)
+	for _, s := range []string{"window3", "regions-ttl"} {
+		t := sc(s, "same", 16, 600)
+		t.Name, t.Params = "C12/"+s+"/header+payload", t.Params+",hp=all"
+		thorough = append(thorough, t)
+	}
 	register(&Check{
 		ID: "C12", Level: "fault_enumeration", Engine: "E3-FAULT", DesignRef: "DESIGN.md §4 C12, §3.3",
 		Technique: "complete enumeration of fault families over streams written by the real Store.Persist, each damaged stream read by the real Store.Recover into a fresh store",
